@@ -110,6 +110,27 @@ func (v VarSources) class() string {
 type configCase struct {
 	Login    VarSources `json:"login"`
 	Password VarSources `json:"password"`
+	// the other http related settings main() reads next to the credentials
+	Prefix string `json:"api_prefix,omitempty"` // http_settings.api_prefix in the file ("" = not set)
+	Cors   string `json:"cors,omitempty"`       // CORS_ALLOW_ORIGIN ("" = unset, CORS off)
+	Mode   string `json:"mode,omitempty"`       // MODE ("" = unset: READONLY makes it reader, see startMain)
+}
+
+var (
+	cfgPrefixes = []string{"", "/qryn", "/a/b"}
+	cfgCors     = []string{"", "*", "http://grafana.local", "http://grafana.local,https://other.example:3000"}
+	// modes that start without a ClickHouse: reader, unset (key=true makes READONLY true,
+	// which turns the default "all" into "reader", main.go:197-204) and a mode main() does
+	// not know (common routes only)
+	cfgModes = []string{"reader", "", "other"}
+)
+
+// refMode is the mode of the in-process assembly that tells which paths have a route.
+func (c configCase) refMode() string {
+	if c.Mode == "" {
+		return "reader"
+	}
+	return c.Mode
 }
 
 // ---- the real main, built once per tree state ------------------------------------------------
@@ -286,8 +307,14 @@ func startMainOnce(c configCase) (*child, error) {
 	env := []string{
 		"PATH=" + os.Getenv("PATH"), "HOME=" + dir, "TMPDIR=" + dir,
 		"key=true", "OMIT_CREATE_TABLES=true", // skip initDB (boolEnv reads "key", main.go:44)
-		"MODE=reader", "HOST=127.0.0.1", fmt.Sprintf("PORT=%d", port),
+		"HOST=127.0.0.1", fmt.Sprintf("PORT=%d", port),
 		"CLICKHOUSE_SERVER=127.0.0.1", fmt.Sprintf("CLICKHOUSE_PORT=%d", backend.port),
+	}
+	if c.Mode != "" {
+		env = append(env, "MODE="+c.Mode)
+	}
+	if c.Cors != "" {
+		env = append(env, "CORS_ALLOW_ORIGIN="+c.Cors)
 	}
 	add := func(name string, s Src) {
 		if s.Set {
@@ -299,7 +326,7 @@ func startMainOnce(c configCase) (*child, error) {
 	add("QRYN_PASSWORD", c.Password.New)
 	add("CLOKI_PASSWORD", c.Password.Legacy)
 	var args []string
-	if c.Login.File.Set || c.Password.File.Set {
+	if c.Login.File.Set || c.Password.File.Set || c.Prefix != "" {
 		basic := map[string]string{}
 		if c.Login.File.Set {
 			basic["username"] = string(c.Login.File.Value)
@@ -307,7 +334,11 @@ func startMainOnce(c configCase) (*child, error) {
 		if c.Password.File.Set {
 			basic["password"] = string(c.Password.File.Value)
 		}
-		doc, _ := json.Marshal(map[string]any{"auth_settings": map[string]any{"basic": basic}})
+		file := map[string]any{"auth_settings": map[string]any{"basic": basic}}
+		if c.Prefix != "" {
+			file["http_settings"] = map[string]any{"api_prefix": c.Prefix}
+		}
+		doc, _ := json.Marshal(file)
 		p := filepath.Join(dir, "qryn.json")
 		if err := os.WriteFile(p, doc, 0o644); err != nil {
 			return nil, err
@@ -435,7 +466,8 @@ func predConfig(c configCase, o *evid.Obs) error {
 		return nil
 	}
 	defer ch.stop()
-	ref, err := sweepApp("reader", 0) // only to ask whether a path has a route
+	o.Tag("api-prefix:"+c.Prefix, "cors:"+c.Cors, "mode:"+c.Mode)
+	ref, err := sweepApp(c.refMode(), 0) // only to ask whether a path has a route
 	if err != nil {
 		return fmt.Errorf("assembly: %w", err)
 	}
@@ -477,6 +509,10 @@ func predConfig(c configCase, o *evid.Obs) error {
 		{true, "Basic " + b64(":"+p0), "empty-user"},
 		{true, "Basic " + b64(":"), "empty-both"},
 		{true, "Bearer " + b64(l0+":"+p0), "other-scheme"},
+		{true, "Basic " + b64(l0[:len(l0)-1]+":"+l0[len(l0)-1:]+p0), "resplit"},
+		{true, "Basic " + b64(l0+p0[:1]+":"+p0[1:]), "resplit"},
+		{true, "Basic " + b64(l0+p0+":"), "resplit"},
+		{true, "Basic " + b64(":"+l0+p0), "resplit"},
 	} {
 		if !seen[h.v] {
 			seen[h.v] = true
@@ -497,7 +533,7 @@ func predConfig(c configCase, o *evid.Obs) error {
 				for _, p := range passes {
 					switch Classify(l, p, q.HasAuth, string(q.Auth)) {
 					case MustPass:
-						verdict, s = MustPass, Settings{Login: l, Password: p, Mode: "reader"}
+						verdict, s = MustPass, Settings{Login: l, Password: p, Mode: c.refMode()}
 					case DontCare:
 						if verdict == MustDeny {
 							verdict = DontCare
@@ -506,7 +542,7 @@ func predConfig(c configCase, o *evid.Obs) error {
 				}
 			}
 			if verdict != MustPass {
-				s = Settings{Login: l0, Password: p0, Mode: "reader"}
+				s = Settings{Login: l0, Password: p0, Mode: c.refMode()}
 			}
 			if verdict == DontCare {
 				continue
@@ -559,9 +595,98 @@ func predConfig(c configCase, o *evid.Obs) error {
 			}
 		}
 	}
+	if err := sweepChildPaths(c, ch, logins, passes, o); err != nil {
+		return err
+	}
 	if !candidateLetIn {
 		return fmt.Errorf("configuration {login from %s, password from %s}: none of the effective credentials (logins %q, passwords %q) is let in",
 			c.Login.class(), c.Password.class(), logins, passes)
+	}
+	return nil
+}
+
+// sweepChildPaths: the well-known common routes and a few API routes, at the root and
+// under every prefix of the domain (the configured one included), without credentials and
+// with the right ones. Nothing is assumed about where main() mounts what: whatever path
+// answers with more than "no such route" must have required the credentials. Without
+// credentials a response is acceptable only if it is mux's 405/301, the authentication
+// layer's own 401/400, or the 404 the sentinel path gets (judgeX, route-less branch); and
+// a path that demands credentials must accept the right ones.
+var childPaths = []Req{
+	{Method: "GET", Path: "/ready"}, {Method: "GET", Path: "/config"}, {Method: "GET", Path: "/metrics"},
+	{Method: "GET", Path: "/api/status/buildinfo"},
+	{Method: "GET", Path: "/loki/api/v1/labels"}, {Method: "GET", Path: "/api/v1/metadata"},
+	{Method: "GET", Path: "/api/v1/status/buildinfo"}, {Method: "POST", Path: "/loki/api/v1/push", CT: "application/json", Body: "{}"},
+	{Method: "GET", Path: "/api/search/tags", Query: "start=1&end=2"},
+}
+
+func sweepChildPaths(c configCase, ch *child, logins, passes []string, o *evid.Obs) error {
+	s := Settings{Login: logins[0], Password: passes[0], Mode: c.refMode()}
+	ambiguous := len(logins) > 1 || len(passes) > 1
+	ctx := fmt.Sprintf("configuration {login from %s, password from %s, api_prefix %q, cors %q, mode %q; effective login %q password %q}",
+		c.Login.class(), c.Password.class(), c.Prefix, c.Cors, c.Mode, logins, passes)
+	for _, prefix := range cfgPrefixes {
+		for _, base := range childPaths {
+			q := base
+			q.Path = prefix + base.Path
+			where := "root"
+			if prefix != "" {
+				where = "under-other-prefix"
+				if prefix == c.Prefix {
+					where = "under-configured-prefix"
+				}
+			}
+			if c.Cors != "" {
+				q.HasOrigin, q.Origin = true, "http://evil.example"
+			}
+			observe := func(q Req) (Resp, []string, *Resp, error) {
+				backend.Reset()
+				got, err := serveWire(ch.base, q, hangShort)
+				if err != nil {
+					return got, nil, nil, err
+				}
+				log := backend.Sync()
+				sq := q
+				sq.Path, sq.Query = sentinelPath, ""
+				var sentinel *Resp
+				if sg, serr := serveWire(ch.base, sq, hangShort); serr == nil {
+					sentinel = &sg
+				}
+				return got, log, sentinel, nil
+			}
+			// without credentials
+			judgeNone := func() error {
+				got, log, sentinel, err := observe(q)
+				if err != nil {
+					return nil
+				}
+				if got.Hang {
+					return fmt.Errorf("a handler ran (and never answered) without credentials: %s", q)
+				}
+				o.Tag(fmt.Sprintf("path-sweep:%s:no-credentials:%d", where, got.Status))
+				return judgeX(s, q, false, "", got, log, true, sentinel)
+			}
+			if err := judgeNone(); err != nil {
+				if err2 := judgeNone(); err2 != nil {
+					return fmt.Errorf("%s: %w", ctx, err2)
+				}
+				o.Tag("not-reproduced")
+			}
+			if ambiguous {
+				continue
+			}
+			// with the right credentials: a path that demands credentials accepts them
+			qa := q
+			qa.HasAuth, qa.Auth, qa.AuthKind = true, evid.Str(Canonical(logins[0], passes[0])), "right"
+			if got, _, _, err := observe(qa); err == nil && !got.Hang {
+				o.Tag(fmt.Sprintf("path-sweep:%s:right-credentials:%d", where, got.Status))
+				if got.Status == 401 {
+					if got2, _, _, err2 := observe(qa); err2 == nil && got2.Status == 401 {
+						return fmt.Errorf("%s: right credentials answered 401: %s", ctx, qa)
+					}
+				}
+			}
+		}
 	}
 	return nil
 }
@@ -582,16 +707,26 @@ func enumConfig(yield func(configCase)) {
 		}
 		return v
 	}
+	// the other settings rotate over the source patterns (each prefix x CORS x mode
+	// combination occurs with several source patterns; the random check draws them freely)
+	n := 0
+	emit := func(c configCase) {
+		c.Prefix = cfgPrefixes[n%len(cfgPrefixes)]
+		c.Cors = cfgCors[(n/len(cfgPrefixes))%len(cfgCors)]
+		c.Mode = cfgModes[(n/(len(cfgPrefixes)*len(cfgCors)))%len(cfgModes)]
+		n++
+		yield(c)
+	}
 	for lm := 0; lm < 8; lm++ {
 		for pm := 0; pm < 8; pm++ {
-			yield(configCase{
+			emit(configCase{
 				Login:    mk(lm, [3]string{"login-qryn", "login-cloki", "login-file"}),
 				Password: mk(pm, [3]string{"pw:qryn", "pw:cloki", "pw:file"}),
 			})
 			if lm&3 == 3 || pm&3 == 3 {
 				// both prefixes present: the variant with equal values has one effective
 				// pair (full oracle) where the one above is ambiguous
-				yield(configCase{
+				emit(configCase{
 					Login:    mk(lm, [3]string{"login-env", "login-env", "login-file"}),
 					Password: mk(pm, [3]string{"pw:env", "pw:env", "pw:file"}),
 				})
@@ -631,6 +766,9 @@ func genConfig(rt *rapid.T) configCase {
 	c.Password.New = genSrc(rt, "pw-qryn", cred("pq", true))
 	c.Password.Legacy = genSrc(rt, "pw-cloki", cred("pc", true))
 	c.Password.File = genSrc(rt, "pw-file", cred("pf", true))
+	c.Prefix = rapid.SampledFrom(cfgPrefixes).Draw(rt, "api-prefix")
+	c.Cors = rapid.SampledFrom(cfgCors).Draw(rt, "cors")
+	c.Mode = rapid.SampledFrom(cfgModes).Draw(rt, "mode")
 	if rapid.Bool().Draw(rt, "same-in-both-prefixes") {
 		// the same value under both names: no ambiguity, full oracle
 		if c.Login.New.val() != "" && c.Login.Legacy.val() != "" {
